@@ -575,6 +575,56 @@ func (ad *adversary) generate(T int) advPacket {
 			binary.LittleEndian.PutUint32(raw[8:], 0)
 			binary.LittleEndian.PutUint32(raw[8:], wCRC(raw))
 			p = advPacket{raw: raw, class: "mutated-real-packet"}
+		case 38:
+			// a structured chunk whose declared length is a few bytes off its content: it ends inside the
+			// padding of its last element, inside the element, or a few stray bytes behind it
+			unpadded := func(typ uint16, val []byte) []byte { return wParamTLV(typ, val)[:4+len(val)] }
+			var typ uint8
+			var v []byte
+			switch tp.intn(7) {
+			case 0, 1:
+				body := wU32(pick(tp, tCum, ad.u32()), pick(tp, tNext, ad.u32()), pick(tp, tCum, ad.u32()))
+				for j := 1 + 2*tp.intn(3); j > 0; j-- {
+					body = append(body, 0, byte(tp.intn(12)))
+				}
+				typ, v = wtRECONFIG, unpadded(13, body)
+				if tp.intn(3) == 0 {
+					v = append(wParamTLV(13, body), unpadded(16, wU32(ad.u32(), uint32(tp.intn(8))))...)
+				}
+			case 2:
+				typ, v = wtERROR, unpadded(uint16(1+tp.intn(13)), ad.randBytes(1+tp.intn(9)))
+			case 3:
+				typ, v = wtHEARTBEAT, unpadded(1, ad.randBytes(1+2*tp.intn(6)))
+			case 4:
+				v = wU32(tCum - uint32(tp.intn(3)))
+				for j := tp.intn(4); j > 0; j-- {
+					v = append(v, 0, byte(tp.intn(12)), byte(tp.intn(256)), byte(tp.intn(256)))
+				}
+				typ = wtFORWARDTSN
+			case 5:
+				typ, v = wtSACK, wSackValue(ackPoint, 100000, nil, nil)
+			default:
+				typ, v = uint8(0xc0|tp.intn(64)), unpadded(uint16(tp.intn(65536)), ad.randBytes(1+tp.intn(9)))
+				if typ == wtIFORWARDTSN || typ == wtFORWARDTSN {
+					typ = 0xfe
+				}
+			}
+			d := pick(tp, -3, -2, -1, 1, 2, 3)
+			n := len(v) + d
+			if n < 0 {
+				n = 0
+			}
+			if d < 0 {
+				v = v[:n]
+			} else {
+				v = append(v, ad.randBytes(d)...)
+			}
+			b.chunkRawLen(typ, 0, 4+n, v)
+			if tp.intn(3) == 0 {
+				// decoding must resume on the 4-byte boundary behind the declared length
+				b.chunk(wtSACK, 0, wSackValue(ackPoint, 100000, nil, nil))
+			}
+			p = advPacket{raw: b.bytes(true), class: "length-edge"}
 		default:
 			// chunk soup with a valid checksum
 			for i := 1 + tp.intn(4); i > 0; i-- {
